@@ -61,6 +61,7 @@ class _Class(object):
         self.methods = {}
         self.fields = []
         self.stored = {}          # method name -> fields it assigns
+        self.static = set()       # names of @staticmethod members
         if cls.decorator_list or cls.keywords:
             return
         if any(not (isinstance(b, ast.Name) and b.id == 'object') for b in cls.bases):
@@ -72,6 +73,12 @@ class _Class(object):
                 for t in s.targets:
                     if isinstance(t, ast.Name) and t.id not in self.fields:
                         self.fields.append(t.id)
+                continue
+            if isinstance(s, ast.FunctionDef) and len(s.decorator_list) == 1 and isinstance(s.decorator_list[0], ast.Name) \
+                    and s.decorator_list[0].id == 'staticmethod' and not s.args.vararg and not s.args.kwarg \
+                    and not s.name.startswith('__'):
+                self.methods[s.name] = s
+                self.static.add(s.name)
                 continue
             if isinstance(s, ast.FunctionDef) and not s.decorator_list and s.args.args and not s.args.vararg \
                     and not s.args.kwarg and not s.args.kwonlyargs and not getattr(s.args, 'posonlyargs', None):
@@ -100,7 +107,7 @@ class _Class(object):
                 p = getattr(n, '_ofparent', None)
                 if not (isinstance(p, ast.Attribute) and p.value is n):
                     return
-                if p.attr in self.methods:
+                if p.attr in self.methods and p.attr not in self.static:
                     return
                 if isinstance(p.ctx, ast.Store) and p.attr not in self.fields:
                     self.fields.append(p.attr)
@@ -108,6 +115,8 @@ class _Class(object):
             return
         # methods: self only as self.field (load) / self.method
         for m in self.methods.values():
+            if m.name in self.static:
+                continue
             me_m = m.args.args[0].arg
             for n in ast.walk(m):
                 if isinstance(n, FUNCS + (ast.Lambda,)) and n is not m:
@@ -172,9 +181,10 @@ def _stores_in(fn, name):
 
 
 class _Subst(ast.NodeTransformer):
-    def __init__(self, names=None, attrs=None):
+    def __init__(self, names=None, attrs=None, stores=False):
         self.names = names or {}      # Name id -> replacement expression (copied)
         self.attrs = attrs or {}      # (Name id, attr) -> replacement expression
+        self.stores = stores          # also rename names that are assigned (replacement must be a Name)
 
     def visit_Attribute(self, node):
         if isinstance(node.value, ast.Name) and (node.value.id, node.attr) in self.attrs:
@@ -188,6 +198,10 @@ class _Subst(ast.NodeTransformer):
     def visit_Name(self, node):
         if node.id in self.names and isinstance(node.ctx, ast.Load):
             return ast.copy_location(_clone(self.names[node.id]), node)
+        if self.stores and node.id in self.names and isinstance(self.names[node.id], ast.Name):
+            new = _clone(self.names[node.id])
+            new.ctx = node.ctx
+            return ast.copy_location(new, node)
         return node
 
 
@@ -296,8 +310,17 @@ def _try_site(fn, body, idx, stmt, info, module_names):
                 alias[f] = a
     field_expr = lambda f: alias[f] if f in alias else _name(fname(f))
     attrs_self = lambda me_: dict([((me_, f), field_expr(f)) for f in info.fields] + [((me_, m), _name(fname(m))) for m in info.methods])
+    # locals of __init__ get names of their own
+    init_locals = sorted(init_stores - set(params))
+    if any(fname('local_' + x) in taken for x in init_locals):
+        return None
+    pnames = dict(pnames)
+    for x in init_locals:
+        pnames[x] = _name(fname('local_' + x))
     # __init__ body
-    sub = _Subst(names=pnames, attrs=attrs_self(me))
+    at0 = attrs_self(me)
+    at0.update({(info.cls.name, x): _name(fname(x)) for x in info.static})
+    sub = _Subst(names=pnames, attrs=at0, stores=True)
     for s in init.body:
         if _is_doc(s) or isinstance(s, ast.Pass):
             continue
@@ -306,13 +329,23 @@ def _try_site(fn, body, idx, stmt, info, module_names):
             continue
         s2 = sub.visit(_clone(s))
         new.append(place(s2))
-    # methods
-    for mname, m in info.methods.items():
+    # methods (static ones first: __init__ may use them)
+    init_part, new = new, []
+    for mname, m in sorted(info.methods.items(), key=lambda kv: kv[0] not in info.static):
+        if mname not in info.static and init_part is not None:
+            new, init_part = new + init_part, None
         m2 = _clone(m)
-        me_m = m2.args.args[0].arg
-        m2.args.args = m2.args.args[1:]
         m2.name = fname(mname)
-        subm = _Subst(attrs=attrs_self(me_m))
+        m2.decorator_list = []
+        if mname in info.static:
+            # K.m(..) inside the class reads v__m(..) as well
+            subm = _Subst(attrs={(info.cls.name, x): _name(fname(x)) for x in info.methods})
+        else:
+            me_m = m2.args.args[0].arg
+            m2.args.args = m2.args.args[1:]
+            at_ = attrs_self(me_m)
+            at_.update({(info.cls.name, x): _name(fname(x)) for x in info.static})
+            subm = _Subst(attrs=at_)
         m2.body = [subm.visit(s) for s in m2.body]
         if info.stored.get(mname):
             decl = ast.Nonlocal(names=sorted(fname(f) for f in info.stored[mname]))
@@ -320,6 +353,8 @@ def _try_site(fn, body, idx, stmt, info, module_names):
             m2.body.insert(at, ast.copy_location(decl, m2.body[0]))
         m2._flattened_from = (info.cls.name, mname)
         new.append(m2)
+    if init_part is not None:
+        new = new + init_part
     body[idx:idx + 1] = new
     # uses
     rec = ast.Dict(keys=[ast.Constant(value=f) for f in info.fields], values=[_clone(field_expr(f)) for f in info.fields])
